@@ -217,6 +217,77 @@ def load_chain(row, locs):
     return chain
 
 
+FAMILY_X = [0.37, 0.9, 1.7, 2.6, 3.9, 5.2]
+FAMILY_TRIALS = [[-0.8, -1.6, 0.7, 1.9, -0.6], [1.3, -0.45, 2.2, -1.1, 0.8], [0.21, 2.3, -1.7, 0.5, 1.4], [-1.2, 0.9, 1.1, -0.3, 2.1], [0.4, 1.7, -0.9, -2.2, 0.6]]
+
+
+def family_check(ef, eu, kf, ku, locs):
+    """A map marked unrecoverable ('nan'): the unique function (ku < kf parameters) must still describe the same family of curves.  Checked
+    one way, numerically: for five parameter vectors of the function (mixed signs and orders) its values on six abscissae must be attained by the unique
+    function for SOME parameter vector -- dense signed log grid (ku <= 2) refined by least squares.  Returns None (fine / not decidable here) or
+    a message.  Conservative: a trial counts only if the function is finite there; a failure is reported only if at least two trials fail."""
+    import numpy as np, sympy, warnings
+    from scipy.optimize import least_squares
+    if ku > 2:
+        return None
+    xs = np.array(FAMILY_X)
+    xsym = locs["x"]
+    fa = [locs["a%d" % j] for j in range(max(kf, 1))]
+    ua = [locs["a%d" % j] for j in range(max(ku, 1))]
+    try:
+        ff = sympy.lambdify([xsym] + fa, ef, modules=["numpy"])
+        fu = sympy.lambdify([xsym] + ua, eu, modules=["numpy"])
+    except Exception:
+        return None
+    g1 = np.concatenate([-np.logspace(-8, 8, 321)[::-1], [0.0], np.logspace(-8, 8, 321)])
+    g2 = np.concatenate([-np.logspace(-4, 4, 61)[::-1], [0.0], np.logspace(-4, 4, 61)])
+    failed, tried, witness = 0, 0, None
+    with warnings.catch_warnings(), np.errstate(all="ignore"):
+        warnings.simplefilter("ignore")
+        for par in FAMILY_TRIALS:
+            try:
+                y = np.broadcast_to(np.asarray(ff(xs, *par[:max(kf, 1)]), dtype=complex), xs.shape)
+            except Exception:
+                continue
+            if not np.all(np.isfinite(y)) or np.max(np.abs(y.imag)) > 1e-12 * max(1.0, np.max(np.abs(y.real))):
+                continue
+            y = y.real.astype(float)
+            scale = max(1.0, float(np.max(np.abs(y))))
+            tried += 1
+
+            def res(th):
+                try:
+                    v = np.broadcast_to(np.asarray(fu(xs, *th), dtype=complex), xs.shape)
+                except Exception:
+                    return np.full(xs.shape, 1e6)
+                r = np.where(np.isfinite(v), np.abs(v - y), 1e6)
+                return np.asarray(r, float) / scale
+            if ku == 0:
+                best = float(np.max(res([0.0])))
+            else:
+                if ku == 1:
+                    cands = [(float(np.max(res([t]))), [t]) for t in g1]
+                else:
+                    cands = [(float(np.max(res([t, u_]))), [t, u_]) for t in g2 for u_ in g2]
+                cands.sort(key=lambda c: c[0])
+                best = cands[0][0]
+                for c0, th0 in cands[:8]:
+                    if best < 1e-7:
+                        break
+                    try:
+                        o = least_squares(lambda th: res(list(th)), np.array(th0, float), xtol=1e-15, ftol=1e-15, gtol=1e-15, max_nfev=400)
+                        best = min(best, float(np.max(res(list(o.x)))))
+                    except Exception:
+                        pass
+            if best > 1e-5:
+                failed += 1
+                witness = (par[:max(kf, 1)], [float(v) for v in y], best)
+    if tried >= 2 and failed >= 2:
+        return "marked unrecoverable, but the unique function does not attain the function's values: at a=%s the function takes %s on x=%s, the closest the unique function gets is %.3g (relative, over a signed log grid refined by least squares)" % (
+            witness[0], ["%.6g" % v for v in witness[1]], FAMILY_X, witness[2])
+    return None
+
+
 def library_predicate(runname, n, basis=None, sample=None, seed=0):
     import sympy, csv
     fails, cases, distinct = [], 0, 0
@@ -261,6 +332,13 @@ def library_predicate(runname, n, basis=None, sample=None, seed=0):
             if not ku < kf:
                 fails.append({"lib": tag, "line": i, "function": f, "unique": u,
                               "error": "map marked unrecoverable (nan) although the unique function does not have fewer parameters (%d vs %d)" % (ku, kf)})
+            elif not (u.startswith("<class") or u in ("nan", "zoo")):
+                try:
+                    msg = family_check(sympy.sympify(f, locals=locs), sympy.sympify(u, locals=locs), kf, ku, locs)
+                except Exception:
+                    msg = None
+                if msg and len(fails) < 8:
+                    fails.append({"lib": tag, "line": i, "function": f, "unique": u, "error": "function %r -> unique %r: %s" % (f, u, msg)})
             continue
         if len(chain) > 0:
             distinct += 1
